@@ -70,6 +70,16 @@ func doCall(x string) obs {
 	case "limD":
 		mimetype.SetLimit(3072)
 		return obs{s: "setlimit"}
+	case "lim64":
+		mimetype.SetLimit(64)
+		return obs{s: "setlimit"}
+	case "rdtail", "rdgeo": // through the reader entry point
+		in := []byte(strings.Repeat("a", 100) + strings.Repeat("\x00", 200) + strings.Repeat("b", 3000))
+		if x == "rdgeo" {
+			in = paletteInput("geo")
+		}
+		m, err := mimetype.DetectReader(bytes.NewReader(in))
+		return obs{s: m.String(), ext: m.Extension(), chain: strings.Join(chain(m), ">"), err: fmt.Sprint(err)}
 	case "readerr":
 		m, err := mimetype.DetectReader(&faultReader{data: []byte(`{"a":`)})
 		return obs{s: m.String(), ext: m.Extension(), chain: strings.Join(chain(m), ">"), err: fmt.Sprint(err)}
@@ -123,10 +133,10 @@ func histreplayMain(args []string) int {
 	}
 	base := map[string]obs{}
 	for x := range ops {
-		if x == "lim0" || x == "limD" {
+		if x == "lim0" || x == "limD" || x == "lim64" {
 			continue
 		}
-		for _, lim := range []uint32{0, 3072} {
+		for _, lim := range []uint32{0, 3072, 64} {
 			clearPools()
 			mimetype.SetLimit(lim)
 			base[fmt.Sprintf("%s@%d", x, lim)] = doCall(x)
@@ -165,6 +175,10 @@ func histreplayMain(args []string) int {
 				lim = 3072
 				continue
 			}
+			if x == "lim64" {
+				lim = 64
+				continue
+			}
 			want := base[fmt.Sprintf("%s@%d", x, lim)]
 			if o != want {
 				rep.violate(Violation{Property: "C04", Kind: "history-dependent-result", Text: fmt.Sprintf("history %v, call %d (%s), limit %d", h, i+1, x, lim),
@@ -190,7 +204,7 @@ func histreplayMain(args []string) int {
 			defer wg.Done()
 			for k := g; k < len(hists); k += 8 {
 				for _, x := range hists[k] {
-					if x == "lim0" || x == "limD" {
+					if x == "lim0" || x == "limD" || x == "lim64" {
 						continue
 					}
 					o := doCall(x)
